@@ -48,6 +48,23 @@ func main() {
 	case "selftest-determinism":
 		selftestDeterminism(os.Args[2:])
 		return
+	case "all":
+		// run every registered (claimed) check in turn; exit 1 if any reports a violation
+		tier := "quick"
+		if len(os.Args) > 2 {
+			tier = os.Args[2]
+		}
+		worst := 0
+		sort.Slice(props, func(i, j int) bool { return props[i].ID < props[j].ID })
+		for _, p := range props {
+			if wip[p.Harness] || p.Sub {
+				continue
+			}
+			if rc := check(p, tier); rc > worst {
+				worst = rc
+			}
+		}
+		os.Exit(worst)
 	case "debug":
 		debugCmd(os.Args[2:])
 		return
